@@ -116,11 +116,12 @@ class DLISFile:
         for idx_lf, logical_file in enumerate(self.logical_files):
             yield logical_file.file_header_item.parent
 
-            yield from logical_file._eflr_sets[eflr_types.OriginSet].values()
+            # sets without items (possibly left after a failed attempt to add an item) are not put in the file
+            yield from (s for s in logical_file._eflr_sets[eflr_types.OriginSet].values() if s.n_items)
 
             for set_type, set_dict in logical_file._eflr_sets.items():
                 if set_type not in (eflr_types.FileHeaderSet, eflr_types.OriginSet):
-                    yield from set_dict.values()
+                    yield from (s for s in set_dict.values() if s.n_items)
 
             yield from logical_file._no_format_frame_data
 
